@@ -207,6 +207,7 @@ def topStructs : List String := instList.filter hasTable
 
 def leafAddressed (top : String) (pk : Path × Kind) : Bool :=
   Kind.settable pk.2 && (match pk.2 with | .struct _ => false | _ => true) &&
+  !(keyOf pk.1).contains '=' &&
   addressed env (keyFuel (keyOf pk.1)) (.struct top) [] (keyOf pk.1) == some (pk.1, pk.2, [])
 
 def everyLeafAddressed : Bool :=
@@ -226,7 +227,7 @@ theorem every_declared_leaf_addressed (top : String) (htop : top ∈ topStructs)
     ∃ ls, declLeaves 8 top [] = some ls ∧ ls ≠ [] ∧ (ls.map (·.1)).Nodup ∧
       ∀ p k, (p, k) ∈ ls →
         addressed env (keyFuel (keyOf p)) (.struct top) [] (keyOf p) = some (p, k, []) ∧
-        Kind.settable k = true ∧ (∀ n, k ≠ .struct n) := by
+        Kind.settable k = true ∧ (∀ n, k ≠ .struct n) ∧ '=' ∉ keyOf p := by
   have h := every_leaf_addressed
   simp only [everyLeafAddressed, List.all_eq_true] at h
   have ht := h top htop
@@ -239,8 +240,8 @@ theorem every_declared_leaf_addressed (top : String) (htop : top ∈ topStructs)
     refine ⟨ls, rfl, hne, hnd, fun p k hpk => ?_⟩
     have := hall (p, k) hpk
     simp only [leafAddressed, Bool.and_eq_true, beq_iff_eq] at this
-    obtain ⟨⟨h1, h2⟩, h3⟩ := this
-    refine ⟨h3, h1, fun n hn => ?_⟩
+    obtain ⟨⟨⟨h1, h2⟩, h4⟩, h3⟩ := this
+    refine ⟨h3, h1, fun n hn => ?_, by simpa using h4⟩
     subst hn
     simp at h2
 
@@ -391,6 +392,56 @@ theorem setVecElems_err (ps : List Str) (done : List R) (e : Err)
     · exact ih _ h
     · simp only [Option.some.injEq] at h; simp [← h]
 
+/-- **Every way `set_param(vec_from_file&, …)` can end** (after `assert_key_empty`): it stores the
+    parsed vector of an acceptable size and returns; or it throws without touching `v.value`; or —
+    only in the direct form (value not starting with `@`) and only while the code engages the
+    optional before parsing (`emplaceFirst`) — it throws *after* writing: an empty vector when an
+    element is rejected, the complete wrong-sized vector when the size check fails. -/
+theorem setVff_outcomes (files : Str → FileRow) (b : Bool) (expected : Int) (value : Str) :
+    (∃ xs, setVff files b pr expected value = (some (.o (some xs)), none) ∧ sizeMismatch expected xs.length = false) ∨
+    (∃ e, setVff files b pr expected value = (none, some e) ∧
+      (e = .fileOpen ∨ e = .fileRead ∨ e = .badSize ∨ e = .numInvalid ∨ e = .numRange ∨ e = .numSuffix)) ∨
+    (b = true ∧ value.head? ≠ some '@' ∧
+      ((∃ e, setVff files b pr expected value = (some (.o (some [])), some e) ∧
+          (e = .numInvalid ∨ e = .numRange ∨ e = .numSuffix)) ∨
+       (∃ xs, setVff files b pr expected value = (some (.o (some xs)), some .badSize) ∧
+          sizeMismatch expected xs.length = true))) := by
+  unfold setVff
+  split
+  · rename_i path
+    split
+    · exact Or.inr (Or.inl ⟨_, rfl, by simp⟩)
+    · split
+      · exact Or.inr (Or.inl ⟨_, rfl, by simp⟩)
+      · rename_i xs _
+        cases hs : sizeMismatch expected xs.length with
+        | true => simp only [↓reduceIte]; exact Or.inr (Or.inl ⟨_, rfl, by simp⟩)
+        | false => simp only [Bool.false_eq_true, ↓reduceIte]; exact Or.inl ⟨xs, rfl, hs⟩
+  · rename_i hnot
+    have hh : value.head? ≠ some '@' := by
+      cases value with
+      | nil => simp
+      | cons c t =>
+        simp only [List.head?_cons, ne_eq, Option.some.injEq]
+        rintro rfl
+        exact hnot t rfl
+    split
+    · rename_i xs hv
+      cases hs : sizeMismatch expected xs.length with
+      | false => simp only [Bool.false_eq_true, ↓reduceIte]; exact Or.inl ⟨xs, rfl, hs⟩
+      | true =>
+        simp only [↓reduceIte]
+        cases b with
+        | false => exact Or.inr (Or.inl ⟨_, rfl, by simp⟩)
+        | true => exact Or.inr (Or.inr ⟨rfl, hh, Or.inr ⟨xs, rfl, hs⟩⟩)
+    · rename_i xs e hv
+      have he := setVecElems_err pr _ [] e (by rw [hv])
+      cases b with
+      | false =>
+        refine Or.inr (Or.inl ⟨e, rfl, ?_⟩)
+        rcases he with h | h | h <;> simp [h]
+      | true => exact Or.inr (Or.inr ⟨rfl, hh, Or.inl ⟨e, rfl, he⟩⟩)
+
 /-- No leaf setter ever reports an exhausted budget. -/
 theorem setLeaf_never_fuel (hpr : FromCharsConsumes pr) (k : Kind) (key value : Str) :
     (setLeaf env cfg pr k key value).2 ≠ some .fuel := by
@@ -427,6 +478,16 @@ theorem setLeaf_never_fuel (hpr : FromCharsConsumes pr) (k : Kind) (key value : 
               all_goals simp
   | struct n => simp [setLeaf]
   | other n => simp [setLeaf]
+  | vff x =>
+    simp only [setLeaf]
+    split
+    · simp
+    · rcases setVff_outcomes pr env.files env.vffEmplaceFirst x value with
+        ⟨xs, h, -⟩ | ⟨e, h, he⟩ | ⟨-, -, ⟨e, h, he⟩ | ⟨xs, h, -⟩⟩
+      · rw [h]; simp
+      · rw [h]; rcases he with rfl | rfl | rfl | rfl | rfl | rfl <;> simp
+      · rw [h]; rcases he with rfl | rfl | rfl <;> simp
+      · rw [h]; simp
 
 /-- `set_param` with a budget above the key length never reports an exhausted budget. -/
 theorem setParam_never_fuel (hne : NoEmptyKey env) (hpr : FromCharsConsumes pr) (fuel : Nat) (k : Kind)
@@ -514,8 +575,16 @@ theorem set_param_sets (fuel : Nat) (k : Kind) (path : Path) (key value : Str) (
       exfalso
       simp only [hw, applyLeaf] at hok
       subst hok
-      cases lk <;> simp only [setLeaf] at hw <;> (try split at hw) <;> (try split at hw) <;>
-        (try split at hw) <;> simp at hw
+      cases lk with
+      | vff x =>
+        simp only [setLeaf] at hw
+        split at hw
+        · simp at hw
+        · rcases setVff_outcomes pr env.files env.vffEmplaceFirst x value with
+            ⟨xs, h, -⟩ | ⟨e, h, -⟩ | ⟨-, -, ⟨e, h, -⟩ | ⟨xs, h, -⟩⟩ <;> (rw [h] at hw; simp at hw)
+      | _ =>
+        simp only [setLeaf] at hw
+        (try split at hw) <;> (try split at hw) <;> (try split at hw) <;> simp at hw
     · simp only [hw, applyLeaf] at hok
       subst hok
       exact ⟨l, rfl, rfl, by simp [applyLeaf, Store.set]⟩
@@ -823,11 +892,36 @@ theorem durAdd_spec (u res : Nat) (v : R) (acc : Int) (hacc : repMin ≤ acc ∧
 
 /-! ### No half-written structure -/
 
+/-- Is the kind a `vec_from_file`? -/
+def Kind.isVff : Kind → Bool
+  | .vff _ => true
+  | _ => false
+
+/-- The exact exclusion of the no-half-write theorems (open finding
+    `C18-vec_from_file-half-write`): the call is safe unless the code engages the optional of a
+    `vec_from_file` before parsing (`env.vffEmplaceFirst`), the addressed object *is* a
+    `vec_from_file`, and the value is in the direct form (does not start with `@`). -/
+def HalfWriteSafe (env : Env) (lk : Kind) (value : Str) : Prop :=
+  env.vffEmplaceFirst = false ∨ Kind.isVff lk = false ∨ value.head? = some '@'
+
 /-- A leaf setter that throws has not written: every setter parses into a local and assigns the
-    field as its last statement. -/
+    field as its last statement — outside the exclusion `HalfWriteSafe` spells out. -/
 theorem setLeaf_no_write (lk : Kind) (rem value : Str) (w : Option (Leaf R)) (e : Err)
+    (hx : HalfWriteSafe env lk value)
     (h : setLeaf env cfg pr lk rem value = (w, some e)) : w = none := by
   cases lk with
+  | vff x =>
+    simp only [setLeaf] at h
+    split at h
+    · simp only [Prod.mk.injEq] at h; exact h.1.symm
+    · rcases setVff_outcomes pr env.files env.vffEmplaceFirst x value with
+        ⟨xs, h', -⟩ | ⟨e', h', -⟩ | ⟨hb, hh, -⟩
+      · rw [h'] at h; simp at h
+      · rw [h'] at h; simp only [Prod.mk.injEq] at h; exact h.1.symm
+      · rcases hx with hx | hx | hx
+        · rw [hx] at hb; simp at hb
+        · simp [Kind.isVff] at hx
+        · exact absurd hx hh
   | vec =>
     simp only [setLeaf] at h
     split at h <;> simp_all
@@ -855,9 +949,12 @@ theorem setLeaf_no_write (lk : Kind) (rem value : Str) (w : Option (Leaf R)) (e 
   | other n => simp only [setLeaf, Prod.mk.injEq] at h; exact h.1.symm
 
 /-- **No half-write.**  If `set_param` throws — whatever the exception, whatever the kind of the
-    addressed object (scalar, duration, vec, nested struct member) — the store equals its
-    pre-state.  No side condition. -/
+    addressed object (scalar, duration, vec, nested struct member, `vec_from_file` in the `@file`
+    form) — the store equals its pre-state.  Only side condition: the exclusion `HalfWriteSafe`
+    for the leaf the key addresses (false only for the direct form of a `vec_from_file` while
+    `env.vffEmplaceFirst` holds; `vff_half_write_current` shows the statement fails there). -/
 theorem no_half_write (fuel : Nat) (k : Kind) (path : Path) (key value : Str) (st st' : Store R) (e : Err)
+    (hx : ∀ p lk rem, addressed env fuel k path key = some (p, lk, rem) → HalfWriteSafe env lk value)
     (h : setParam env cfg pr fuel k path key value st = (st', some e)) : st' = st := by
   cases ha : addressed env fuel k path key with
   | none =>
@@ -872,7 +969,7 @@ theorem no_half_write (fuel : Nat) (k : Kind) (path : Path) (key value : Str) (s
     | none => simp only [applyLeaf, Prod.mk.injEq] at h; exact h.1.symm
     | some l =>
       simp only [applyLeaf, Prod.mk.injEq] at h
-      have := setLeaf_no_write env cfg pr lk rem value (some l) e (by rw [hw, h.2])
+      have := setLeaf_no_write env cfg pr lk rem value (some l) e (hx p lk rem ha) (by rw [hw, h.2])
       simp at this
 
 /-! ### `set_params`: prefix filter, `used` counters, state at a throw -/
@@ -941,22 +1038,29 @@ theorem used_le (top : Kind) (pfx : Str) (opts : List Str) (st : Store R) :
 
 /-- **State at a throw.**  If `set_params` throws, the object is exactly what the options
     *before* the failing one made it: there is a split `opts = before ++ failing :: after` such
-    that applying `before` alone succeeds and yields the very same store.  No side condition. -/
+    that applying `before` alone succeeds and yields the very same store.  Side condition: the
+    exclusion `HalfWriteSafe` for the leaf each option addresses (see `no_half_write`;
+    `vffFree_safe`: it holds for every option when no `vec_from_file` is reachable from `top`). -/
 theorem set_params_no_half_write (top : Kind) (pfx : Str) (opts : List Str) (st st' : Store R)
     (u : List Nat) (e : Err)
+    (hx : ∀ kv ∈ opts, ∀ p lk rem, addressed env (keyFuel (optKey kv)) top [] (optKey kv) = some (p, lk, rem) →
+      HalfWriteSafe env lk (optValue kv))
     (h : setParams env cfg pr top pfx opts st = (st', u, some e)) :
     ∃ before failing after u', opts = before ++ failing :: after ∧
       setParams env cfg pr top pfx before st = (st', u', none) := by
   induction opts generalizing st u with
   | nil => simp [setParams] at h
   | cons kv rest ih =>
+    have hx' : ∀ kv' ∈ rest, ∀ p lk rem,
+        addressed env (keyFuel (optKey kv')) top [] (optKey kv') = some (p, lk, rem) →
+        HalfWriteSafe env lk (optValue kv') := fun kv' hk => hx kv' (by simp [hk])
     simp only [setParams] at h
     by_cases hp : optPrefix kv = pfx
     · simp only [hp, bne_self_eq_false, Bool.false_eq_true, ↓reduceIte] at h
       rcases hs : setParam env cfg pr (keyFuel (optKey kv)) top [] (optKey kv) (optValue kv) st with ⟨st1, _ | err⟩
       · simp only [hs, Prod.mk.injEq] at h
         obtain ⟨b, f, a, u', hsplit, hb⟩ :=
-          ih st1 (setParams env cfg pr top pfx rest st1).2.1 (by
+          ih st1 (setParams env cfg pr top pfx rest st1).2.1 hx' (by
             rcases hr : setParams env cfg pr top pfx rest st1 with ⟨s2, u2, e2⟩
             simp only [hr] at h ⊢
             rw [h.1, h.2.2])
@@ -964,12 +1068,13 @@ theorem set_params_no_half_write (top : Kind) (pfx : Str) (opts : List Str) (st 
         simp [setParams, hp, hs, hb]
       · simp only [hs, Prod.mk.injEq, Option.some.injEq] at h
         obtain ⟨rfl, -, rfl⟩ := h
-        have := no_half_write env cfg pr (keyFuel (optKey kv)) top [] (optKey kv) (optValue kv) st st1 err hs
+        have := no_half_write env cfg pr (keyFuel (optKey kv)) top [] (optKey kv) (optValue kv) st st1 err
+          (hx kv (by simp)) hs
         exact ⟨[], kv, rest, [], rfl, by simp [setParams, this]⟩
     · have hp' : (optPrefix kv != pfx) = true := by simpa using hp
       simp only [hp', ↓reduceIte, Prod.mk.injEq] at h
       obtain ⟨b, f, a, u', hsplit, hb⟩ :=
-        ih st (setParams env cfg pr top pfx rest st).2.1 (by
+        ih st (setParams env cfg pr top pfx rest st).2.1 hx' (by
           rcases hr : setParams env cfg pr top pfx rest st with ⟨s2, u2, e2⟩
           simp only [hr] at h ⊢
           rw [h.1, h.2.2])
@@ -1435,6 +1540,161 @@ theorem leaf_bool_generated (value : Str) :
           have f3 : ("true".toList == value) = false := by simpa using fun h => h3 h.symm
           simp only [e0, e1, e2, e3, f0, f1, f2, f3, Bool.or_self, Bool.false_eq_true, ↓reduceIte]
 
+/-! ### `vec_from_file` (`params/vec-from-file.hpp`, setter in params.cpp)
+
+Only ever a top-level object (`set_params(x0, "x0", opts)` in the driver), never a member of a
+registered struct (`generated_env_vff_free`).  `setVff_outcomes` lists every way the setter can
+end.  The `@file` form never writes when it throws (`vff_file_rejected`).  The direct form
+(`name=1,2,3`) engages the optional before parsing while `env.vffEmplaceFirst` holds — as
+params.cpp does now (`vff_current`) — and then leaves a half-written object behind a throw
+(`vff_direct_half_write`; open finding `C18-vec_from_file-half-write`); with the flag off the same
+inputs throw without writing (`vff_direct_no_half_write`). -/
+
+theorem setVff_direct (files : Str → FileRow) (b : Bool) (x : Int) (value : Str) (hd : value.head? ≠ some '@') :
+    setVff files b pr x value =
+      match setVecElems pr (pieces (value.count ',' + 1) value) [] with
+      | (xs, none) =>
+        if sizeMismatch x xs.length then (if b then some (.o (some xs)) else none, some .badSize)
+        else (some (.o (some xs)), none)
+      | (_, some e) => (if b then some (.o (some [])) else none, some e) := by
+  unfold setVff
+  split
+  · rename_i path
+    simp at hd
+  · rfl
+
+/-- Accepted, direct form: every piece a number, size acceptable: the vector is stored. -/
+theorem leaf_vff_direct (x : Int) (value : Str) (vs : List R) (hd : value.head? ≠ some '@')
+    (h : List.Forall₂ (fun p v => pr p = .ok v []) (pieces (value.count ',' + 1) value) vs)
+    (hs : sizeMismatch x vs.length = false) :
+    setLeaf env cfg pr (.vff x) [] value = (some (.o (some vs)), none) := by
+  simp [setLeaf, setVff_direct pr env.files env.vffEmplaceFirst x value hd, setVecElems_ok pr _ [] vs h, hs]
+
+theorem readRow_ok (toks : List Str) (vs : List R) (h : List.Forall₂ (fun t v => pr t = .ok v []) toks vs) :
+    readRow pr toks = some vs := by
+  induction h with
+  | nil => rfl
+  | cons hp _ ih => simp [readRow, hp, ih]
+
+/-- Accepted, `@file` form: the file exists, every token of its first row a number, size acceptable. -/
+theorem leaf_vff_file (x : Int) (path : Str) (toks : List Str) (vs : List R)
+    (hf : env.files path = .row toks) (h : List.Forall₂ (fun t v => pr t = .ok v []) toks vs)
+    (hs : sizeMismatch x vs.length = false) :
+    setLeaf env cfg pr (.vff x) [] ('@' :: path) = (some (.o (some vs)), none) := by
+  simp [setLeaf, setVff, hf, readRow_ok pr toks vs h, hs]
+
+/-- the `@file` form never writes when it throws, and throws for a missing file, an unreadable
+    row, a wrong size -/
+theorem vff_file_rejected (x : Int) (path : Str) :
+    (env.files path = .missing → setLeaf env cfg pr (.vff x) [] ('@' :: path) = (none, some .fileOpen)) ∧
+    (∀ toks, env.files path = .row toks → readRow pr toks = none →
+      setLeaf env cfg pr (.vff x) [] ('@' :: path) = (none, some .fileRead)) ∧
+    (∀ toks vs, env.files path = .row toks → readRow pr toks = some vs → sizeMismatch x vs.length = true →
+      setLeaf env cfg pr (.vff x) [] ('@' :: path) = (none, some .badSize)) := by
+  refine ⟨fun h => ?_, fun toks h h2 => ?_, fun toks vs h h2 h3 => ?_⟩
+  · simp [setLeaf, setVff, h]
+  · simp [setLeaf, setVff, h, h2]
+  · simp [setLeaf, setVff, h, h2, h3]
+
+/-- **The half-write, as the code is while `env.vffEmplaceFirst` holds.** -/
+theorem vff_direct_half_write (henv : env.vffEmplaceFirst = true) (x : Int) (value : Str)
+    (hd : value.head? ≠ some '@') :
+    (∀ xs e, setVecElems pr (pieces (value.count ',' + 1) value) [] = (xs, some e) →
+      setLeaf env cfg pr (.vff x) [] value = (some (.o (some [])), some e)) ∧
+    (∀ xs, setVecElems pr (pieces (value.count ',' + 1) value) [] = (xs, none) →
+      sizeMismatch x xs.length = true →
+      setLeaf env cfg pr (.vff x) [] value = (some (.o (some xs)), some .badSize)) := by
+  refine ⟨fun xs e h => ?_, fun xs h hs => ?_⟩
+  · have hd' := setVff_direct pr env.files env.vffEmplaceFirst x value hd
+    simp only [setLeaf, List.isEmpty_nil, Bool.not_true, Bool.false_eq_true, ↓reduceIte, hd', h]
+    simp [henv]
+  · have hd' := setVff_direct pr env.files env.vffEmplaceFirst x value hd
+    simp only [setLeaf, List.isEmpty_nil, Bool.not_true, Bool.false_eq_true, ↓reduceIte, hd', h, hs]
+    simp [henv]
+
+/-- … and once the code parses into a local first (`env.vffEmplaceFirst = false`) the same inputs
+    throw without writing. -/
+theorem vff_direct_no_half_write (henv : env.vffEmplaceFirst = false) (x : Int) (value : Str)
+    (hd : value.head? ≠ some '@') :
+    (∀ xs e, setVecElems pr (pieces (value.count ',' + 1) value) [] = (xs, some e) →
+      setLeaf env cfg pr (.vff x) [] value = (none, some e)) ∧
+    (∀ xs, setVecElems pr (pieces (value.count ',' + 1) value) [] = (xs, none) →
+      sizeMismatch x xs.length = true →
+      setLeaf env cfg pr (.vff x) [] value = (none, some .badSize)) := by
+  refine ⟨fun xs e h => ?_, fun xs h hs => ?_⟩
+  · have hd' := setVff_direct pr env.files env.vffEmplaceFirst x value hd
+    simp only [setLeaf, List.isEmpty_nil, Bool.not_true, Bool.false_eq_true, ↓reduceIte, hd', h]
+    simp [henv]
+  · have hd' := setVff_direct pr env.files env.vffEmplaceFirst x value hd
+    simp only [setLeaf, List.isEmpty_nil, Bool.not_true, Bool.false_eq_true, ↓reduceIte, hd', h, hs]
+    simp [henv]
+
+/-- No `vec_from_file` is reachable from `top` through the tables. -/
+def VffFree (env : Env) (top : Kind) : Prop :=
+  Kind.isVff top = false ∧ ∀ t ∈ env.structs, ∀ e ∈ t.2, Kind.isVff e.kind = false
+
+theorem addressed_not_vff (fuel : Nat) (k : Kind) (hv : VffFree env k) (path : Path) (key : Str)
+    (p : Path) (lk : Kind) (rem : Str) (h : addressed env fuel k path key = some (p, lk, rem)) :
+    Kind.isVff lk = false := by
+  induction fuel generalizing k path key with
+  | zero => simp [addressed] at h
+  | succ n ih =>
+    cases k with
+    | struct name =>
+      simp only [addressed] at h
+      cases hf : env.find name (splitKey key).1 with
+      | none => simp [hf] at h
+      | some e =>
+        simp only [hf] at h
+        refine ih e.kind ⟨?_, hv.2⟩ _ _ h
+        simp only [Env.find, Env.table] at hf
+        cases ht : env.structs.find? (·.1 == name) with
+        | none => simp [ht] at hf
+        | some t =>
+          simp only [ht] at hf
+          exact hv.2 t (List.mem_of_find?_eq_some ht) e (List.mem_of_find?_eq_some hf)
+    | _ =>
+      simp only [addressed, Option.some.injEq, Prod.mk.injEq] at h
+      obtain ⟨-, rfl, -⟩ := h
+      exact hv.1
+
+theorem vffFree_safe (top : Kind) (hv : VffFree env top) (opts : List Str) :
+    ∀ kv ∈ opts, ∀ p lk rem, addressed env (keyFuel (optKey kv)) top [] (optKey kv) = some (p, lk, rem) →
+      HalfWriteSafe env lk (optValue kv) :=
+  fun kv _ p lk rem h => Or.inr (Or.inl (addressed_not_vff env _ top hv [] _ p lk rem h))
+
+/-! ### "Sets that field — and no other": one composed statement -/
+
+theorem opt_parts (pfx key v : Str) (hp : '.' ∉ pfx ∧ '=' ∉ pfx) (hk : '=' ∉ key) :
+    optPrefix (pfx ++ '.' :: key ++ '=' :: v) = pfx ∧ optKey (pfx ++ '.' :: key ++ '=' :: v) = key ∧
+    optValue (pfx ++ '.' :: key ++ '=' :: v) = v := by
+  have h1 : '=' ∉ pfx ++ '.' :: key := by
+    simp only [List.mem_append, List.mem_cons, not_or]
+    exact ⟨hp.2, by decide, hk⟩
+  have e1 : splitKey (pfx ++ '.' :: key ++ '=' :: v) '=' = (pfx ++ '.' :: key, v) := by
+    have := Proofs.C18.splitKey_append (pfx ++ '.' :: key) v '=' h1
+    simpa [List.append_assoc] using this
+  have e2 : splitKey (pfx ++ '.' :: key) '.' = (pfx, key) := Proofs.C18.splitKey_append pfx key '.' hp.1
+  simp only [optPrefix, optKey, optValue, e1, e2, and_self]
+
+/-- **Glue for the composed statement** (any tables): after options `a` that ran without exception
+    to `st1`, an option with the requested prefix whose key resolves to the leaf `p` of kind `k`
+    with nothing left over, and whose value the leaf setter of `k` accepts as `l`, makes
+    `set_params` return normally with the store `st1` updated at exactly `p` (every other path
+    reads as before) and the option counted once. -/
+theorem set_params_sets_exactly (top : Kind) (pfx : Str) (a : List Str) (kv : Str) (st st1 : Store R)
+    (ua : List Nat) (p : Path) (k : Kind) (l : Leaf R)
+    (ha : setParams env cfg pr top pfx a st = (st1, ua, none))
+    (hpfx : optPrefix kv = pfx)
+    (haddr : addressed env (keyFuel (optKey kv)) top [] (optKey kv) = some (p, k, []))
+    (hl : setLeaf env cfg pr k [] (optValue kv) = (some l, none)) :
+    setParams env cfg pr top pfx (a ++ [kv]) st = (st1.set p l, ua ++ [1], none) ∧
+    (st1.set p l) p = some l ∧ ∀ q, q ≠ p → (st1.set p l) q = st1 q := by
+  refine ⟨?_, by simp [Store.set], fun q hq => by simp [Store.set, hq]⟩
+  rw [matching_option_applied_once env cfg pr top pfx a [] kv st st1 ua hpfx ha,
+    setParam_of_addressed env cfg pr _ top [] (optKey kv) (optValue kv) st1 p k [] haddr, hl]
+  simp [applyLeaf, setParams]
+
 end machinery
 
 /-- An enum field set to the *name* of a declared, non-deprecated enumerator receives that
@@ -1449,6 +1709,63 @@ theorem declared_enumerator_sets_value {R : Type} [Sub R] [Mul R] [Div R] [LT R]
   · rw [hdep] at h1; simp at h1
   · exact leaf_enum_by_name env cfg pr ed.name e.1.toList (e.1, e.2.1) h1
 
+
+
+/-! ### Generated data: where the no-half-write guarantee holds today, and the composed statement -/
+
+/-- No `PARAMS_TABLE` entry is a `vec_from_file`: from a top that is not one, none is reachable. -/
+theorem generated_env_vff_free (top : Kind) (h : Kind.isVff top = false) : VffFree env top :=
+  ⟨h, by decide⟩
+
+/-- **Which params.cpp this is**: the direct form of `set_param(vec_from_file&, …)` engages
+    `v.value` first (`set_param(v.value.emplace(), s)`), then parses, then checks the size; the
+    `@file` form opens, reads, checks the size and only then stores.  Open finding
+    `C18-vec_from_file-half-write`: this statement and `vff_half_write_current` are the ones that
+    change when it is fixed. -/
+theorem vff_current :
+    env.vffEmplaceFirst = true ∧ vffDirectSteps = ["emplace", "parse", "size"] ∧
+    vffFileSteps = ["open", "opencheck", "read", "size", "store", "catch"] := by decide
+
+/-- **No half-written structure, on the generated tables, as the code is now**: for every top-level
+    object that is not a `vec_from_file` (every parameter struct, enum, number, duration, vec),
+    every prefix, option list, parse oracle and file system: if `set_params` throws, the object is
+    exactly what the options before the failing one made it. -/
+theorem generated_no_half_write_current {R : Type} [Sub R] [Mul R] [Div R] [LT R] [DecidableLT R] [BEq R]
+    [DurScalar R] (cfg : DurCfg) (pr : Str → NumRes R) (top : Kind) (htop : Kind.isVff top = false)
+    (pfx : Str) (opts : List Str) (st st' : Store R) (u : List Nat) (e : Err)
+    (h : setParams env cfg pr top pfx opts st = (st', u, some e)) :
+    ∃ before failing after u', opts = before ++ failing :: after ∧
+      setParams env cfg pr top pfx before st = (st', u', none) :=
+  set_params_no_half_write env cfg pr top pfx opts st st' u e
+    (vffFree_safe env top (generated_env_vff_free top htop) opts) h
+
+/-- **The option `prefix.path.to.field=value` sets that field — and no other** (the function the
+    driver runs, on the generated tables).  For every instantiated parameter struct `top`, every
+    leaf `(p, k)` declared in its definition (`declLeaves`), every prefix without delimiters, every
+    value string `v` that the setter of kind `k` accepts with parsed value `l`
+    (`hl`; what `l` is for each kind: `leaf_real_exact`, `int_field_exact`, `leaf_bool_generated`,
+    `declared_enumerator_sets_value`, `duration_field_sum_round`, `leaf_vec_elementwise`), after
+    any options `a` that ran without exception: `set_params` returns normally, the resulting object
+    is the previous one updated at exactly `p` with `l` — every other member path reads as before —
+    and the option is counted once. -/
+theorem option_sets_exactly_the_field {R : Type} [Sub R] [Mul R] [Div R] [LT R] [DecidableLT R] [BEq R]
+    [DurScalar R] (cfg : DurCfg) (pr : Str → NumRes R) (top : String) (htop : top ∈ topStructs)
+    (ls : List (Path × Kind)) (hls : declLeaves 8 top [] = some ls) (p : Path) (k : Kind) (hpk : (p, k) ∈ ls)
+    (pfx v : Str) (hpfx : '.' ∉ pfx ∧ '=' ∉ pfx) (l : Leaf R)
+    (hl : setLeaf env cfg pr k [] v = (some l, none))
+    (a : List Str) (st st1 : Store R) (ua : List Nat)
+    (ha : setParams env cfg pr (.struct top) pfx a st = (st1, ua, none)) :
+    setParams env cfg pr (.struct top) pfx (a ++ [pfx ++ '.' :: keyOf p ++ '=' :: v]) st =
+      (st1.set p l, ua ++ [1], none) ∧
+    (st1.set p l) p = some l ∧ ∀ q, q ≠ p → (st1.set p l) q = st1 q := by
+  obtain ⟨ls', hls', -, -, hall⟩ := every_declared_leaf_addressed top htop
+  rw [hls] at hls'
+  simp only [Option.some.injEq] at hls'
+  subst hls'
+  obtain ⟨haddr, -, -, hkey⟩ := hall p k hpk
+  obtain ⟨e1, e2, e3⟩ := opt_parts pfx (keyOf p) v hpfx hkey
+  exact set_params_sets_exactly env cfg pr (.struct top) pfx a _ st st1 ua p k l ha e1
+    (by rw [e2]; exact haddr) (by rw [e3]; exact hl)
 
 /-! ### `chrono::round` rounds to the nearest count, ties to even (exact arithmetic) -/
 
@@ -1805,7 +2122,8 @@ example : (setParams env durCfg exDec (.struct "PANOCParams") "p".toList
 example : (parseDuration durCfg 1 (fun s => NumRes.ok (1 : ℚ) s) 2 0 "5s".toList).2 = some .fuel := by
   decide +kernel
 
-def cyclicEnv : Env := { structs := [("S", [{ key := "", member := "m", kind := .struct "S" }])], enums := [] }
+def cyclicEnv : Env :=
+  { structs := [("S", [{ key := "", member := "m", kind := .struct "S" }])], enums := [], vffEmplaceFirst := true }
 example : (setParam cyclicEnv durCfg exDec (keyFuel []) (.struct "S") [] [] "1".toList (fun _ => none)).2 =
     some .fuel := by decide +kernel
 
@@ -2008,6 +2326,104 @@ example : |(90 : ℚ) * (1000000000 : Nat) / (60000000000 : Nat) -
 example : |(1500 : ℚ) * (1000000 : Nat) / (1000000000 : Nat) -
     (chronoRound 1000000 1000000000 (1500 : ℚ) : ℚ)| ≤ 1 / 2 :=
   (duration_rounding ("ms", 1000000) (by decide) 1000000000 (by decide) 1500).1
+
+
+/-! ### `vec_from_file` -/
+
+/-- `vec_from_file` objects for the examples: `value = [1, 2]` at the top-level path `[]` -/
+def vffStore : Store ℚ := fun q => if q = [] then some (.o (some [1, 2])) else none
+
+/-- **The half-write, pinned on the generated environment** (open finding
+    `C18-vec_from_file-half-write`; flips when params.cpp parses into a local first): from
+    `value = [1, 2]`, `p=3,x` throws `Invalid value` and leaves `value` engaged and *empty*; with
+    `expected_size = 2`, `p=4,5,6` throws `Incorrect size` and leaves `[4, 5, 6]` stored. -/
+theorem vff_half_write_current :
+    (setParams env durCfg exDec (.vff (-1)) "p".toList ["p=3,x".toList] vffStore).1 [] = some (.o (some [])) ∧
+    (setParams env durCfg exDec (.vff (-1)) "p".toList ["p=3,x".toList] vffStore).2 = ([1], some .numInvalid) ∧
+    (setParams env durCfg exDec (.vff 2) "p".toList ["p=4,5,6".toList] vffStore).1 [] = some (.o (some [4, 5, 6])) ∧
+    (setParams env durCfg exDec (.vff 2) "p".toList ["p=4,5,6".toList] vffStore).2 = ([1], some .badSize) := by
+  decide +kernel
+
+/-- the general statement behind it, hypotheses discharged on the generated environment -/
+example : setLeaf env durCfg exDec (.vff 2) [] "4,5,6".toList = (some (.o (some [4, 5, 6])), some .badSize) :=
+  (vff_direct_half_write env durCfg exDec vff_current.1 2 "4,5,6".toList (by decide)).2 [4, 5, 6]
+    (by decide +kernel) (by decide)
+
+/-- with the store-last order the same inputs throw and write nothing -/
+example : setLeaf { env with vffEmplaceFirst := false } durCfg exDec (.vff 2) [] "4,5,6".toList =
+      (none, some .badSize) ∧
+    setLeaf { env with vffEmplaceFirst := false } durCfg exDec (.vff (-1)) [] "3,x".toList =
+      (none, some .numInvalid) := by
+  constructor
+  · exact (vff_direct_no_half_write { env with vffEmplaceFirst := false } durCfg exDec rfl 2 "4,5,6".toList
+      (by decide)).2 [4, 5, 6] (by decide +kernel) (by decide)
+  · exact (vff_direct_no_half_write { env with vffEmplaceFirst := false } durCfg exDec rfl (-1) "3,x".toList
+      (by decide)).1 [3] .numInvalid (by decide +kernel)
+
+/-- accepted values, direct and `@file` form (a file system with one file `row.csv` = `7,8`) -/
+def fsEnv : Env := { env with files := fun p => if p = "row.csv".toList then .row ["7".toList, "8".toList] else .missing }
+
+example : setLeaf env durCfg exDec (.vff 2) [] "4,5".toList = (some (.o (some [4, 5])), none) :=
+  leaf_vff_direct env durCfg exDec 2 "4,5".toList [4, 5] (by decide)
+    (by
+      rw [show pieces ("4,5".toList.count ',' + 1) "4,5".toList = ["4".toList, "5".toList] from by decide]
+      exact .cons (by decide +kernel) (.cons (by decide +kernel) .nil))
+    (by decide)
+
+example : setLeaf fsEnv durCfg exDec (.vff 2) [] "@row.csv".toList = (some (.o (some [7, 8])), none) :=
+  leaf_vff_file fsEnv durCfg exDec 2 "row.csv".toList ["7".toList, "8".toList] [7, 8] (by decide)
+    (.cons (by decide +kernel) (.cons (by decide +kernel) .nil)) (by decide)
+
+example : setLeaf fsEnv durCfg exDec (.vff 2) [] "@nofile.csv".toList = (none, some .fileOpen) ∧
+    setLeaf fsEnv durCfg exDec (.vff 3) [] "@row.csv".toList = (none, some .badSize) :=
+  ⟨(vff_file_rejected fsEnv durCfg exDec 2 "nofile.csv".toList).1 (by decide),
+   (vff_file_rejected fsEnv durCfg exDec 3 "row.csv".toList).2.2 ["7".toList, "8".toList] [7, 8] (by decide)
+     (by decide +kernel) (by decide)⟩
+
+/-- `no_half_write` with its exclusion discharged three ways: a non-`vec_from_file` leaf; the
+    `@file` form; and it really fails on the excluded point (`vff_half_write_current`) -/
+example (st' : Store ℚ) (e : Err)
+    (h : setParam env durCfg exDec 1 (.vff 2) [] [] "@nofile.csv".toList vffStore = (st', some e)) :
+    st' = vffStore :=
+  no_half_write env durCfg exDec 1 (.vff 2) [] [] "@nofile.csv".toList vffStore st' e
+    (fun _ _ _ _ => Or.inr (Or.inr (by decide))) h
+
+example : (setParam env durCfg exDec 1 (.vff 2) [] [] "@nofile.csv".toList vffStore).2 = some .fileOpen := by
+  decide +kernel
+
+/-! ### the composed statement, every hypothesis discharged -/
+
+/-- `solver.lbfgs_params.cbfgs.ϵ=0.25` on a `PANOCOCPParams`: the store is updated at exactly
+    `["lbfgs_params", "cbfgs", "ϵ"]` with `1/4`, used = `[1]`; then `solver.max_time=1h30min` on top
+    of it (the first result is the `ha` of the second application): `max_time` = 5 400 000 000 000 ns
+    and `ϵ` still reads `1/4`. -/
+example (st : Store ℚ) :
+    ∃ st2, setParams env durCfg exDec (.struct "PANOCOCPParams") "solver".toList
+        (["solver.lbfgs_params.cbfgs.ϵ=0.25".toList] ++ ["solver.max_time=1h30min".toList]) st =
+          (st2, [1, 1], none) ∧
+      st2 ["max_time"] = some (.d 5400000000000) ∧ st2 ["lbfgs_params", "cbfgs", "ϵ"] = some (.r (1 / 4)) ∧
+      ∀ q, q ≠ ["max_time"] → q ≠ ["lbfgs_params", "cbfgs", "ϵ"] → st2 q = st q := by
+  have htop : "PANOCOCPParams" ∈ topStructs := by decide
+  obtain ⟨ls, hls, -, -, -⟩ := every_declared_leaf_addressed "PANOCOCPParams" htop
+  have hmem : ∀ pk, ((declLeaves 8 "PANOCOCPParams" []).getD []).contains pk = true → pk ∈ ls := by
+    intro pk h; rw [hls] at h; simpa using h
+  have h1 := option_sets_exactly_the_field durCfg exDec "PANOCOCPParams" htop ls hls
+    ["lbfgs_params", "cbfgs", "ϵ"] .real (hmem _ (by decide)) "solver".toList "0.25".toList (by decide)
+    (.r (1 / 4)) (leaf_real_exact env durCfg exDec "0.25".toList (1 / 4) (by decide +kernel))
+    [] st st [] rfl
+  have hdur : setLeaf env durCfg exDec (.dur 1) [] "1h30min".toList = (some (.d 5400000000000), none) :=
+    (duration_field_sum_round exDec exDec_consumes 1 (by decide) _ _ ex_comps_1h30min 5400000000000
+      (by decide +kernel)).1
+  have h2 := option_sets_exactly_the_field durCfg exDec "PANOCOCPParams" htop ls hls
+    ["max_time"] (.dur 1) (hmem _ (by decide)) "solver".toList "1h30min".toList (by decide)
+    (.d 5400000000000) hdur _ st _ _ h1.1
+  have e : ["solver.lbfgs_params.cbfgs.ϵ=0.25".toList] ++ ["solver.max_time=1h30min".toList] =
+      ([] ++ ["solver".toList ++ '.' :: keyOf ["lbfgs_params", "cbfgs", "ϵ"] ++ '=' :: "0.25".toList]) ++
+        ["solver".toList ++ '.' :: keyOf ["max_time"] ++ '=' :: "1h30min".toList] := by decide
+  refine ⟨_, ?_, h2.2.1, ?_, fun q hq1 hq2 => ?_⟩
+  · rw [e]; exact h2.1
+  · rw [h2.2.2 _ (by decide)]; exact h1.2.1
+  · rw [h2.2.2 q hq1, h1.2.2 q hq2]
 
 end examples
 
